@@ -417,3 +417,71 @@ def c10_r8(ctx):
         ctx.viol('%s|predicate' % wu.path, wu.at,
                  'wait_for_update must block exactly while the lock generation is below the requested one: `<=` never wakes for the current '
                  'round, `>`/`!=` lets elements of the next round through before the state is installed', None)
+
+
+def _core(x):
+    """strip clones / derefs / borrows from a rendered term"""
+    import re as _re
+    prev = None
+    while prev != x:
+        prev = x
+        x = x.strip()
+        x = _re.sub(r'^[&*]+', '', x)
+        for pre in ('Clone::clone(', 'Deref::deref(', 'DerefMut::deref_mut('):
+            if x.startswith(pre) and x.endswith(')'):
+                x = x[len(pre):-1]
+    return x
+
+
+@rule('C10', 'R9', 'at every ordinary block boundary (split_block, binary_connection, route) the new block\'s Start waits on the innermost state lock of the iteration context that very block is given')
+def c10_r9(ctx):
+    """A block inside a loop body must not let an element of round k+1 pass before the state of round k is installed (C10.R4: Start
+    waits on its `state_lock`).  Which lock a Start gets is decided where the block is created: it has to be `last()` of the
+    iteration context handed to `new_block` for that block.  A Start built with the lock of one *input* (or none) while the block
+    lives in the loop of the other input reads stale state when the state broadcast is slower than the data."""
+    facts = ctx.facts
+    roots = facts.find(r'Stream::<Op>::split_block$|Stream::<Op>::binary_connection$|RouterBuilder::<Out, OperatorChain>::build_inner$')
+    if len(roots) < 3:
+        raise AnchorMissing('expected split_block, binary_connection and RouterBuilder::build_inner')
+    for f0 in roots:
+        locks, ctxs, passed = [], [], []
+        for f in facts.family(f0):
+            sym = q.sym(facts, f)
+            for bi, t in f.calls():
+                p = t['callee'].get('path') or ''
+                if p.endswith('StreamContextInner::new_block') and len(t['args']) >= 4:
+                    ctxs.append((t['at'], _core(render(strip(sym.operand(t['args'][3]))))))
+                    continue
+                for a in t['args']:
+                    if a[0] == 'k' or len(a[1]) != 1:
+                        continue
+                    ty = f.locals[a[1][0]]['ty']
+                    if 'std::option::Option<std::sync::Arc<renoir::operator::iteration::IterationStateLock' in ty and not ty.startswith('&'):
+                        r = render(strip(sym.operand(a)))
+                        passed.append((t['at'], r))
+                        if '::last(' in r:
+                            inner = r[r.index('::last(') + 7:]
+                            depth, out = 1, ''
+                            for ch in inner:
+                                if ch == '(':
+                                    depth += 1
+                                elif ch == ')':
+                                    depth -= 1
+                                    if depth == 0:
+                                        break
+                                out += ch
+                            locks.append((t['at'], _core(out)))
+        name = f0.path.rsplit('::', 1)[-1]
+        ctx.inst('%s|state lock' % name, {'new_block contexts': [c for _, c in ctxs], 'lock taken from': [l for _, l in locks]})
+        if not ctxs or not passed:
+            raise AnchorMissing('%s: no new_block call / no state-lock argument found' % f0.path)
+        for at, r in passed:
+            if '::last(' not in r:
+                ctx.viol('%s|no-lock' % f0.path, at, 'the Start of the new block is built with the state lock `%s`, not with the innermost lock of '
+                         'its iteration context: inside a loop it would let elements of the next round pass before the state is installed' % r[:80], None)
+        cset = {c for _, c in ctxs}
+        for at, l in locks:
+            if l not in cset:
+                ctx.viol('%s|foreign-lock' % f0.path, at, 'the Start of the new block waits on the last lock of `%s` while the block itself is created in the '
+                         'iteration context `%s`: when the two differ (a side input from outside the loop) the block does not wait for the state of '
+                         'its own loop' % (l, sorted(cset)[0]), None)
